@@ -5,6 +5,7 @@ import (
 	"fmt"
 	"os"
 	"path/filepath"
+	"strings"
 	"testing"
 
 	"pgregory.net/rapid"
@@ -307,6 +308,32 @@ func TestArgumentTables(t *testing.T) {
 			}
 			run(fmt.Sprintf("cast/%d/%d", si, ti), map[string]any{"kx": subj, "keep": int64(42)}, gen.NCall("cast", id("kx"), str(ty)))
 			run(fmt.Sprintf("castvar/%d/%d", si, ti), map[string]any{"keep": int64(42)}, gen.NSet("kx", sgen.Lit(subj)), gen.NCall("cast", id("kx"), str(ty)))
+		}
+	}
+	// subject classes: characters of 1-4 bytes, bytes that are not UTF-8, NUL, line ends, a 70000-byte subject
+	ssubj := []any{"a\U0001F600é\U00020000z", "ab\xffcd\xc3", "nul\x00inside", "line1\r\nline2\n", strings.Repeat("aB é", 17500), " \t\U0001F600 \t", "%F0%9F%98%80+%41%zz", "İıŉǅ ß ﬁ", "\ufeffbom"}
+	scalls := []func() *gen.Node{
+		func() *gen.Node { return gen.NCall("uppercase", id("kx")) },
+		func() *gen.Node { return gen.NCall("trim", id("kx")) },
+		func() *gen.Node { return gen.NCall("trim", id("kx"), str("a\U0001F600 \t")) },
+		func() *gen.Node { return gen.NCall("replace", id("kx"), str("."), str("x")) },
+		func() *gen.Node { return gen.NCall("replace", id("kx"), str("é|\\x{1F600}"), str("<$0>")) },
+		func() *gen.Node { return gen.NCall("url_decode", id("kx")) },
+		func() *gen.Node { return gen.NCall("cast", id("kx"), str("str")) },
+		func() *gen.Node {
+			return gen.NCall("strfmt", id("out"), str("[%s|%q|%v|%5.3s]"), id("kx"), id("kx"), id("kx"), id("kx"))
+		},
+		func() *gen.Node { return gen.NCall("probe", str("len"), gen.NCall("len", id("kx"))) },
+		func() *gen.Node { return gen.NCall("set_tag", id("kx")) },
+		func() *gen.Node { return gen.NCall("set_measurement", id("kx"), gen.NBool(true)) },
+		func() *gen.Node { return gen.NCall("rename", id("k2"), id("kx")) },
+	}
+	for si, subj := range ssubj {
+		for ci, mk := range scalls {
+			if (si+ci)%evid.NShards() != evid.Shard() {
+				continue
+			}
+			run(fmt.Sprintf("subjclass/%d/%d", si, ci), map[string]any{"kx": subj, "keep": int64(42)}, mk(), gen.NCall("probe", str("k2/out"), gen.NCall("get_key", str("k2")), gen.NCall("get_key", str("out"))))
 		}
 	}
 	verbs := []string{"%v", "%d", "%s", "%5.1f", "%q", "%x", "%t", "%08.3f", "%-6d|", "%+d", "%%", "%5s|", "%T", "%c", "%e"}
